@@ -1957,7 +1957,17 @@ impl<T: PackedInt> IntVec<T> {
         let value = u64::from_le_bytes(buffer);
         
         // Use BMI2 BEXTR for optimal bit extraction when available
-        Ok(BitOps::extract_bits(value, bit_in_byte as u8, bits))
+        let mut result = BitOps::extract_bits(value, bit_in_byte as u8, bits);
+
+        // A field that starts at bit b > 0 of its first byte and is wider than 64 - b bits
+        // continues into a ninth byte (write_bits stores it there bit by bit).
+        let low_bits = 64 - bit_in_byte;
+        if (bits as usize) > low_bits {
+            let hi = data.get(byte_offset + 8).copied().unwrap_or(0) as u64;
+            let hi_bits = bits as usize - low_bits;
+            result |= (hi & ((1u64 << hi_bits) - 1)) << low_bits;
+        }
+        Ok(result)
     }
 
     // Decompression methods
